@@ -1162,6 +1162,17 @@ def run_r16(ctx, rule):
         ok = any(c.dominates(q, pb) for q in probes)
         rule.check(ok, "cycle-probe/before-push@%d" % opening.index(pb), "the push that opens a gate is preceded, on every path, by the probe of the walk stack for a cycle (a probe that runs only at some depths misses cycles of other lengths)", f.loc(pb))
     rule.ok("%d probes, %d pushes (%d opening a gate)" % (len(probes), len(pushes), len(opening)))
+    # .. and what the probe answers decides directly: the FoundCycle error is raised on the probe's own `Some` answer and
+    # the literal comparison, with no further condition on the depth of the stack (an answer filtered by `len % 2 == 0`,
+    # a probe wrapped in `if len.is_power_of_two()`)
+    errs = [bi for bi, b in enumerate(f.blocks) if not b["cleanup"] and any(s_["k"] == "assign" and s_["rv"]["k"] == "agg" and s_["rv"].get("variant") == "FoundCycle" for s_ in b["stmts"])]
+    if not errs:
+        rule.bad("cycle-probe/error", "anchor missing: no FoundCycle error is constructed in transfer", f.loc(), kind="anchor-missing")
+    for eb in errs:
+        fs = list(guards.facts_at(f, eb))
+        direct = any(fa[0] == "eq" and fa[1][0] == "discr" and fa[1][1][0] == "call" and fa[1][1][1] in probes for _s, fa in fs)
+        depth = any(mentions(fa, lambda x: x[0] == "call" and norm(x[2]).rsplit("::", 1)[-1] == "len" and x[3] and mentions(x[3][0], lambda y: y[0] == "f" and y[2] == "stack")) and not (fa[0] == "eq" and fa[1][0] == "discr" and fa[1][1][0] == "call" and fa[1][1][1] in probes) for _s, fa in fs)
+        rule.check(direct and not depth, "cycle-probe/answer-decides", "FoundCycle is raised on the probe's own answer and the literal comparison, with no further condition on the stack depth%s" % ("" if direct and not depth else " (the probe's answer is %s)" % ("filtered or wrapped before it is examined" if not direct else "used under a condition on the stack depth")), f.loc(eb))
 
 
 def run(ctx):
